@@ -156,21 +156,46 @@ def h_checkpoint(e, cfg):
 
 
 def h_classifier(e, cfg):
-    """Derived (non-persistent) classifier buffers are recomputed on load."""
+    """Derived (non-persistent) classifier buffers are recomputed on load, and the restored
+    classifier infers and learns exactly like the uninterrupted one.
+
+    source: "assigned" (rates set directly, symbolic), "fresh" (checkpoint at step 0) or
+    "trained" (k labelled forward() calls on symbolic spike rates); the target is in an
+    arbitrary prior state (symbolic rates, and it has already been used for inference);
+    after the load both receive the same m labelled forward() calls."""
     import inferno.learn as learn
-    n, K_ = cfg["n"], cfg["classes"]
-    A = learn.MaxRateClassifier((n,), K_)
-    Bc = learn.MaxRateClassifier((n,), K_)
-    e.tag(component="classifier")
+    n, K_, src = cfg["n"], cfg["classes"], cfg["source"]
+    prop = cfg["proportional"]
+    A = learn.MaxRateClassifier((n,), K_, decay=cfg.get("decay", 0.0))
+    Bc = learn.MaxRateClassifier((n,), K_, decay=cfg.get("decay", 0.0))
+    e.tag(component="classifier", source=src, proportional=prop)
     Bc.rates = e.sym((n, K_), torch.float32, "Rb", lo=0, hi=1)        # target in an arbitrary prior state
-    A.rates = e.sym((n, K_), torch.float32, "Ra", lo=0, hi=1)
+    if cfg.get("target_used", True):
+        Bc.regress(e.sym((1, n), torch.float32, "xb", lo=0, hi=1), prop)
+        Bc.classify(e.sym((1, n), torch.float32, "xc", lo=0, hi=1), prop)
+    if src == "assigned":
+        A.rates = e.sym((n, K_), torch.float32, "Ra", lo=0, hi=1)
+    elif src == "trained":
+        for t, lab in enumerate(cfg["labels"]):
+            A(e.sym((len(lab), n), torch.float32, f"xa{t}", lo=0, hi=1), torch.tensor(lab), logits=None)
     Bc.load_state_dict(snapshot(A))
     e.oblige_eq("classifier:rates", Bc.rates, e.read(A.rates))
-    e.oblige_eq("classifier:proportions", Bc.proportions, e.read(A.proportions), split=True)
-    e.oblige_eq("classifier:assignments", Bc.assignments, e.read(A.assignments), split=True)
-    e.oblige_eq("classifier:occurrences", Bc.occurrences, e.read(A.occurrences), split=True)
+    if src != "fresh":
+        # (a never-updated classifier reports zero occurrences by construction; what must agree for it is the behaviour below)
+        e.oblige_eq("classifier:proportions", Bc.proportions, e.read(A.proportions), split=True)
+        e.oblige_eq("classifier:assignments", Bc.assignments, e.read(A.assignments), split=True)
+        e.oblige_eq("classifier:occurrences", Bc.occurrences, e.read(A.occurrences), split=True)
     x = e.sym((2, n), torch.float32, "x", lo=0, hi=1)
-    e.oblige_eq("classifier:logits", Bc.regress(x), e.read(A.regress(x)), split=True)
+    e.oblige_eq("classifier:logits", Bc.regress(x, prop), e.read(A.regress(x, prop)), split=True)
+    e.oblige_eq("classifier:labels", Bc.classify(x, prop), e.read(A.classify(x, prop)), split=True)
+    for t, lab in enumerate(cfg.get("future", ())):
+        xf = e.sym((len(lab), n), torch.float32, f"xf{t}", lo=0, hi=1)
+        ra = A(xf, torch.tensor(lab), logits=True, proportional=prop)
+        rb = Bc(xf, torch.tensor(lab), logits=True, proportional=prop)
+        e.oblige_eq("classifier:future-logits", rb[1], e.read(ra[1]), split=True, step=t)
+        e.oblige_eq("classifier:future-labels", rb[0], e.read(ra[0]), split=True, step=t)
+        e.oblige_eq("classifier:future-rates", Bc.rates, e.read(A.rates), split=True, step=t)
+        e.oblige_eq("classifier:future-occurrences", Bc.occurrences, e.read(A.occurrences), split=True, step=t)
 
 
 def checks(tier):
@@ -193,7 +218,14 @@ def checks(tier):
                         for k in ks:
                             for j in ((1, 2) if (th or k in (0, 3)) else (2,)):
                                 cfgs.append(dict(layer=layer, syn=syn, neuron=neuron, delay=delay, trainer=trainer, inplace=bool((k + j) % 2), k=k, j=j, m=2, B=1))
-    cl = [dict(n=n, classes=c) for n, c in ((2, 2), (3, 2), (2, 3))]
+    cl = []
+    for n, c in ((2, 2), (3, 2), (2, 3)):
+        for prop in (True, False):
+            cl.append(dict(n=n, classes=c, source="assigned", proportional=prop, future=((0, 1),)))
+            cl.append(dict(n=n, classes=c, source="fresh", proportional=prop, future=((c - 1,), (0,))))
+            for labels in (((0,),), ((c - 1, 0),), ((0,), (c - 1,))) + ((((1, 1), (0,), (c - 1,)),) if th else ()):
+                for decay in ((0.0, 0.5) if th else (0.0,)):
+                    cl.append(dict(n=n, classes=c, source="trained", proportional=prop, labels=labels, decay=decay, future=((c - 1,),) + (((0, 0),) if th else ())))
     o = {"div_policy": "xr", "max_paths": 20000, "query_timeout_ms": 120000}
     return [Check("checkpoint", h_checkpoint, cfgs, opts=o, timeout_s=2400), Check("classifier", h_classifier, cl, opts=o, timeout_s=1200)]
 
@@ -201,7 +233,7 @@ def checks(tier):
 BOUNDS = {
     "quick": {"checkpoint step k": "0..4 (ring size 3) for the delayed STDP / no-trainer serial models, {0,2,3} otherwise", "target prior steps j": [1, 2], "steps after restore m": 2,
               "components": "Serial / RecurrentSerial x 4 synapses x LIF/ALIF/AdEx x delay none/2dt (heterogeneous per-synapse) x trainer none/STDP(delayed)/MSTDPET/DelayAdjustedSTDP x in-place/not "
-                            "(every component appears; not every combination) + a monitor with a 3-slot CA reducer; MaxRateClassifier with symbolic rates",
+                            "(every component appears; not every combination) + a monitor with a 3-slot CA reducer; MaxRateClassifier (source fresh / rates assigned / trained by 1-2 labelled calls on symbolic rates; target with arbitrary rates and already used for inference; 1 labelled call after the restore; proportional on/off)",
               "sizes": "3 inputs, 2 neurons, batch 1"},
     "thorough": {"all combinations": True, "k": "0..4", "j": [1, 2]},
 }
